@@ -743,8 +743,14 @@ def recovery_view(tr, ep):
     """per endpoint: ordered list of recovery-relevant records"""
     out = []
     pending_tx = {}
+    # an endpoint may hold more than one connection (a replayed client Initial makes the server open a second, ghost
+    # connection whose handshake packets are never acknowledged): recovery state is per connection, the view follows
+    # the endpoint's FIRST connection
+    main = next((r.conn for r in tr.recs if r.kind in ("ev", "txp", "rxp") and r.ep == ep and r.conn != "-"), None)
     for r in tr.recs:
         if r.ep != ep if r.kind in ("ev", "txp", "rxp") else True:
+            continue
+        if r.conn != main and r.conn != "-":
             continue
         if r.kind == "txp":
             pending_tx[(r.space, r.pn)] = r
